@@ -65,6 +65,44 @@ Theorem C04_lossless : forall cap t d bs d' ops,
 Proof. exact C04_lossless_full. Qed.
 Print Assumptions C04_lossless.
 
+(* ---- inexact trees (known finding scaled-totals-reloaded) ------------------------------------------------------
+   The full statement "below the cap the identical tree comes back" for ALL trees the system stores would be
+     forall cap t, 1 <= cap -> t_wfb t -> t_subb t -> t_fitsb t -> t_size t < cap ->
+       exists t', decode (encode cap t) = Some t' /\ t_strip0 t' = t_strip0 t
+   (t_subb: total >= self + children, which is what Clone's independent flooring of a multi-slot upload yields).
+   It is FALSE of the faithful model and of the code: the codec writes self values only and recomputes totals. *)
+Theorem C04_lossless_inexact_refuted :
+  exists cap t, (1 <= cap)%nat /\ t_wfb t = true /\ t_subb t = true /\ t_fitsb t = true /\ (t_size t < cap)%nat /\
+    ~ (exists t', tc_deserialize_nodict (tc_serialize_nodict cap t) = Some t' /\ t_strip0 t' = t_strip0 t).
+Proof. exact lossless_inexact_refuted. Qed.
+Print Assumptions C04_lossless_inexact_refuted.
+
+(* What IS preserved for inexact trees below the cap (added hypothesis relative to C04_lossless: t_subb instead of
+   t_exactb): both encodings decode to retotal (prune 0 t) — names, shape and self values of prune 0 t (t_untotal
+   erases totals), which is t up to zero-total frames; every stack with a non-zero self value survives with that
+   value, nothing new appears, and the decoded totals are the sums self + children. *)
+Theorem C04_inexact_preserved : forall cap t d bs d' ops,
+  (1 <= cap)%nat -> t_wfb t = true -> t_subb t = true -> t_fitsb t = true ->
+  tr_weight d + names_weight 0 t + ops_weight ops < two55 ->
+  (t_size t <= cap)%nat ->
+  tc_serialize cap t d = (bs, d') ->
+  let dec := t_retotal (t_prune 0 t) in
+  tc_deserialize (fold_left d_step ops d') bs = Some dec /\
+  tc_deserialize_nodict (tc_serialize_nodict cap t) = Some dec /\
+  t_untotal dec = t_untotal (t_prune 0 t) /\
+  t_strip0 (t_prune 0 t) = t_strip0 t /\
+  (forall x, In x (t_den t) -> snd x <> 0 -> In x (t_den dec)) /\
+  (forall x, In x (t_den dec) -> In x (t_den t)) /\
+  t_exactb dec = true.
+Proof. exact inexact_preserved. Qed.
+Print Assumptions C04_inexact_preserved.
+
+Example C04_inexact_nonvacuous :
+  let t := t_clone 7 8 (t_insert [97] 2 (t_insert [109; 97; 105; 110; 59; 109; 97; 105; 110] 2 t_empty)) in
+  t_wfb t = true /\ t_subb t = true /\ t_exactb t = false /\ t_fitsb t = true /\ t_total t = 3 /\
+  tc_deserialize_nodict (tc_serialize_nodict 1024 t) = Some (t_retotal (t_prune 0 t)) /\ t_total (t_retotal (t_prune 0 t)) = 2.
+Proof. vm_compute. repeat split. Qed.
+
 (* the self-contained encoding alone needs no dictionary hypothesis *)
 Theorem C04_nodict_roundtrip : forall cap t, t_wfb t = true -> t_fitsb t = true ->
   tc_deserialize_nodict (tc_serialize_nodict cap t) = Some (t_retotal (t_prune (t_minval cap t) t)).
